@@ -193,6 +193,32 @@ static std::string handle(const std::string& cmd, const std::string& args) {
         }
     return "ok";
   }
+
+  if (cmd == "o_alt") {  // every alternative name (with its origin-choice suffix) resolves to its own row
+    size_t i = (size_t) to_ll(w.at(0));
+    const SpaceGroupAltName& a = spacegroup_tables::alt_names[i];
+    std::string hm = a.hm;
+    std::vector<std::string> names;
+    std::string nospace;
+    for (char c : hm) if (c != ' ') nospace += c;
+    if (a.ext) {
+      names = {hm + ":" + a.ext, nospace + ":" + a.ext, hm + " :" + a.ext, nospace + ": " + a.ext};
+    } else {
+      names = {hm, nospace};
+    }
+    for (const std::string& n : names) {
+      const SpaceGroup* sg = find_spacegroup_by_name(n);
+      if (sg != &spacegroup_tables::main[a.pos])
+        return "bad alt-name '" + n + "' -> " + idx_str(sg) + " expected " + std::to_string(a.pos);
+    }
+    // the two origin choices of an aliased name are different groups
+    if (a.ext) {
+      const SpaceGroup* s1 = find_spacegroup_by_name(hm + ":1");
+      const SpaceGroup* s2 = find_spacegroup_by_name(hm + ":2");
+      if (s1 && s2 && s1->operations().is_same_as(s2->operations())) return "bad alt-name origin choices coincide";
+    }
+    return "ok";
+  }
   if (cmd == "o_orbit") {
     // property oracle evaluated on the implementation: number of orbit members (incl. Friedel) inside the ASU
     long long row = to_ll(w.at(0)); bool tnt = to_ll(w.at(1)) != 0; int N = (int) to_ll(w.at(2));
